@@ -700,7 +700,7 @@ def bmat(blocks, *args, **kwargs):
                     sizes.append(blocks[i][j].shape[0] + diff)
                 else:
                     sizes.append(blocks[i][j].shape[1] + diff)
-                diff += sizes[-1]
+                diff = sizes[-1]
                 break
 
     mat = sp.bmat(blocks, *args, **kwargs)
